@@ -442,15 +442,15 @@ func (e *SpecEnv) evalCall(x *ast.CallExpr) Val {
 		// addFrom(J, index): J[k] + (k < len(index) && !isAll(index[k]) ? index[k].From : 0); subFrom subtracts
 		J := arg(0)
 		ix := arg(1)
-		if ix.K != KSlice || ix.S.Off != "0" {
-			specFail("%s: second argument must be an unsliced []Range", name)
+		if ix.K != KSlice {
+			specFail("%s: second argument must be a []Range", name)
 		}
 		e.run.needNamed("addFrom", `(declare-fun addFrom ((Array Int Int) (Array Int Range) Int) (Array Int Int))
 (declare-fun subFrom ((Array Int Int) (Array Int Range) Int) (Array Int Int))
 (define-fun rfrom ((A (Array Int Range)) (n Int) (k Int)) Int (ite (and (<= 0 k) (< k n) (not (and (= (From (select A k)) 0) (= (To (select A k)) 0)))) (From (select A k)) 0))
 (assert (forall ((J (Array Int Int)) (A (Array Int Range)) (n Int) (k Int)) (! (= (select (addFrom J A n) k) (+ (select J k) (rfrom A n k))) :pattern ((select (addFrom J A n) k)))))
 (assert (forall ((J (Array Int Int)) (A (Array Int Range)) (n Int) (k Int)) (! (= (select (subFrom J A n) k) (- (select J k) (rfrom A n k))) :pattern ((select (subFrom J A n) k)))))`)
-		return Val{K: KRef, T: sx(name, e.run.coerce(e.st, J, idxSort, name), e.run.sliceArr(e.st, ix.S), ix.S.Len), Sort: idxSort}
+		return Val{K: KRef, T: sx(name, e.run.coerce(e.st, J, idxSort, name), e.run.zeroBased(e.st, ix.S), ix.S.Len), Sort: idxSort}
 	case "app1", "app2", "appT":
 		// application of a function value: app1(f, x), app2(f, a, b), appT(f, t)
 		fv := arg(0)
@@ -469,11 +469,11 @@ func (e *SpecEnv) evalCall(x *ast.CallExpr) Val {
 	case "catoff":
 		// catoff(xs, dim, n): sum over k < n of dim(xs[k], dim)
 		xs := arg(0)
-		if xs.K != KSlice || xs.S.Off != "0" {
-			specFail("catoff: first argument must be an unsliced []Tensor")
+		if xs.K != KSlice {
+			specFail("catoff: first argument must be a []Tensor")
 		}
 		e.run.needDomain("dsumT")
-		return intV(sx("dsumT", e.run.sliceArr(e.st, xs.S), arg(1).T, arg(2).T))
+		return intV(sx("dsumT", e.run.zeroBased(e.st, xs.S), arg(1).T, arg(2).T))
 	case "published":
 		v := arg(0)
 		if v.K != KRef || v.Sort != "T" {
@@ -572,6 +572,17 @@ func (e *SpecEnv) evalCall(x *ast.CallExpr) Val {
 		return r
 	case "old":
 		return e.inOld().eval(x.Args[0])
+	case "ver":
+		id, ok := x.Args[0].(*ast.Ident)
+		lit, ok2 := x.Args[1].(*ast.BasicLit)
+		if !ok || !ok2 {
+			specFail("ver(name, n) expects a variable name and a literal ordinal")
+		}
+		v, ok := e.st.ghost["ver:"+id.Name+":"+lit.Value]
+		if !ok {
+			panic(toolLimit("no binding " + lit.Value + " of " + id.Name + " on this path"))
+		}
+		return v
 	case "len":
 		v := arg(0)
 		if v.K != KSlice {
@@ -700,5 +711,5 @@ func (r *UnitRun) needPredicate(m *Macro) {
 		m.Name, strings.Join(m.Sorts, " "), strings.Join(binders, " "), m.Name, strings.Join(args, " "), body, m.Name, strings.Join(args, " "))
 	// the body may have pulled in further declarations, which must precede this one: append now
 	r.needOrd = append(r.needOrd, key)
-	extraDecls[key] = text
+	r.extra[key] = text
 }
